@@ -1121,6 +1121,10 @@ def one_case(ctx, case):
         model, mextra = run_model(ctx, case)
         i_struct = {k: impl.get(k) for k in ("error", "shape", "kind")}
         m_struct = {k: model.get(k) for k in ("error", "shape", "kind")}
+        # the property says unsupported operands are rejected "with an error rather than a wrong value": WHICH exception type
+        # is raised is not constrained, so only rejected / not rejected is compared
+        i_struct["error"] = i_struct["error"] is not None
+        m_struct["error"] = m_struct["error"] is not None
         if fn == "scalar_mult":
             i_struct["dtype"] = impl.get("dtype")
             m_struct["dtype"] = model.get("dtype")
@@ -1132,8 +1136,8 @@ def one_case(ctx, case):
             mm = iextra["mem"]
             ctx.count("storage_model_cases")
             mr = ctx.driver.call("c15.mem", num="int", mem=[int(v) for v in mm["before"]], x=mm["x"], y=mm["y"], out=mm["out"])
-            if not is_err or impl.get("error") == "ValueError":
-                ctx.point("scalar_mult.storage.kind", "property", impl.get("error"), mr.get("error"), case, exact=True,
+            if True:
+                ctx.point("scalar_mult.storage.kind", "property", impl.get("error") is not None, mr.get("error") is not None, case, exact=True,
                           theorem="C15_scalar_mult_out_storage, C15_scalar_mult_out_view", sig="scalar_mult/storage/kind")
             mem_model = mm["before"] if "error" in mr else [float(v) for v in mr["mem"]]
             ctx.point("scalar_mult.storage.memory_after", "property", mm["after"], mem_model, case, exact=True,
@@ -1160,7 +1164,7 @@ def one_case(ctx, case):
         ctx.oracle(f"{fn} writes only the cells of the out= view", iextra["workspace_clean"], case,
                    sig=f"{fn}/out-workspace", theorem="C15_scalar_mult_out")
     if want[0] == "err":
-        ctx.oracle(f"{fn} rejects", is_err and impl["error"] == want[1], case,
+        ctx.oracle(f"{fn} rejects", is_err, case,
                    detail={"impl": impl if is_err else {"shape": impl.get("shape")}, "expected_error": want[1]},
                    sig=f"{fn}/rejects", theorem=th)
         return
